@@ -35,7 +35,7 @@ ASSUMPTIONS = [
     "islice(None), batched(1), takewhile(true), dropwhile(false), tee(1), merge, zip_longest, cycle, filterfalse)",
     "gc is run at fixed points; finalisers of abandoned generators run as simulator tasks before the next op",
 ]
-PROBES = ("closed_directly", "closed_via_iter", "closed_by_tool", "closed_by_gc", "asend_used", "athrow_on_closed_handle",
+PROBES = ("transient_error", "closed_directly", "closed_via_iter", "closed_by_tool", "closed_by_gc", "asend_used", "athrow_on_closed_handle",
           "underlying_used_after_close", "tool_abandoned", "reborrowed")
 
 TOOL_NAMES = ("zip", "map", "filter", "filterfalse", "enumerate", "accumulate", "batched", "chain", "compress",
@@ -57,6 +57,7 @@ class ModelIter:
     def __next__(self):
         model = self.model
         if not model["open"]:
+            model["signalled_stop"] = True
             raise StopIteration
         c = model["cursor"]
         if c < len(self.items):
@@ -64,6 +65,7 @@ class ModelIter:
             return self.items[c]
         model["open"] = False
         model["exhausted"] = True  # ran off the end: a tool need not close what is exhausted
+        model["signalled_stop"] = True
         raise StopIteration
 
 
@@ -74,12 +76,17 @@ def gen(ch):
     sc.cfg = cfg
     g = Gen(ch, cfg, "")
     items = g.items(ch.draw(9))
+    if items and ch.chance(1, 4):
+        for _ in range(ch.between(1, 2)):
+            items[ch.draw(len(items))] = None  # None is an item like any other
     sc.src = g.src(items, ("agen", "aiter_cls", "aiter_noclose", "aiter_full", "aiter_throwonly"))
+    sc.src.aclose_mode = 0
     sc.src.aclose_suspends = 0
     ops = []
     for n in range(ch.between(1, 12)):
-        kind = ch.weighted([5, 3, 2, 1, 1, 4, 1, 1, 1, 2])
+        kind = ch.weighted([5, 3, 2, 1, 2, 4, 1, 1, 1, 2, 1, 1, 1])
         # 0 next_b 1 next_u 2 close_b 3 close_iter_b 4 asend 5 tool 6 reborrow 7 drop+gc 8 athrow 9 aggregation
+        # 10 borrow the handle itself 11 next_b hitting a transient error of the underlying 12 same via next_u
         if kind in (5, 9):
             gt = Gen(ch, cfg, "t%d" % n)
             gt.uid = 1000 * (n + 1)
@@ -90,6 +97,11 @@ def gen(ch):
                     spec.srcs = [gt.src([])]
                 if name == "batched" and spec.p["n"] < 1:
                     spec.p["n"] = 1
+                if name == "chain" and spec.p["form"] == 2:
+                    spec.p["form"] = 1  # the lazy outer source is built per world by the shared builder, not here
+                    spec.srcs.pop()
+                if spec.p.get("alias"):
+                    spec.p["alias"] = None
                 ops.append((5, spec, ch.draw(5), ch.draw(3)))  # tool spec, j, then
             else:
                 name = AGG_NAMES[ch.draw(len(AGG_NAMES))]
@@ -115,7 +127,9 @@ def execute(st, ctx):
     has_asend = sc.src.flavour in ("agen", "aiter_full")
     trace = []
     problems = []
-    model = {"cursor": 0, "open": True, "closed": False, "exhausted": False}
+    model = {"cursor": 0, "open": True, "closed": False, "exhausted": False, "signalled_stop": False}
+    transient_ok = sc.src.flavour != "agen"  # an async generator that raises is finished for good
+    from ..actors import InjectedFault
     fn_true = make_async_fn(world, FnPlan("ftrue", "lt", 10 ** 6, "def")).obj
     fn_false = make_async_fn(world, FnPlan("ffalse", "lt", -10 ** 6, "async")).obj
     fn_comb = make_async_fn(world, FnPlan("fcomb", "ident", 0, "def")).obj
@@ -162,7 +176,7 @@ def execute(st, ctx):
         for i, op in enumerate(sc.ops):
             kind = op[0]
             name = ("next_b", "next_u", "close_b", "close_iter_b", "asend", "tool", "reborrow", "drop_gc",
-                    "athrow", "agg")[kind]
+                    "athrow", "agg", "reborrow_handle", "fault_next_b", "fault_next_u")[kind]
             if kind == 0:
                 got = await do_next(b)
                 exp = expect_next(True)
@@ -187,12 +201,20 @@ def execute(st, ctx):
                     exp = ("no_asend",)
                 else:
                     out.probes["asend_used"] = 1
-                    try:
-                        item = await b.asend(None)
-                        got = ("item", ident(item))
-                    except StopAsyncIteration:
-                        got = ("stop",)
-                    exp = expect_next(True)
+                    if model["closed"] is not None:
+                        try:
+                            item = await b.asend(None)
+                            got = ("item", ident(item))
+                        except StopAsyncIteration:
+                            got = ("stop",)
+                    if model["closed"] is None:
+                        got = exp = ("skipped",)
+                    elif model["closed"]:
+                        exp = ("stop",)
+                    else:
+                        # until the handle is closed asend goes straight to the underlying iterator, past the
+                        # forwarding wrapper (which may be unstarted, exhausted or dead from a transient error)
+                        exp = expect_next(False)
             elif kind == 5:
                 _, spec, j, then = op
                 tname = spec.tool
@@ -216,6 +238,7 @@ def execute(st, ctx):
                     got_items.append(ident(item))
                     del item
                 # model: the stdlib tool over the model's view of the handle
+                model["signalled_stop"] = False
                 rw = World()
                 rothers = [make_ref_source(rw, p).obj for p in spec.srcs[1:]]
                 rfns = [make_ref_fn(rw, p).obj if p is not None else None for p in spec.fns]
@@ -253,6 +276,9 @@ def execute(st, ctx):
                                 break
                             got_items.append(ident(item))
                             del item
+                            if len(got_items) > 3000:
+                                got_end = "runaway"
+                                break
                         while exp_end is None:
                             try:
                                 exp_items.append(ident(next(rit)))
@@ -277,6 +303,10 @@ def execute(st, ctx):
                     model["closed"] = True
                     out.probes["closed_by_tool"] = 1
                 it = None
+                if model["closed"] is True and model["signalled_stop"]:
+                    # the handle told the tool it was at its end: a tool may close such an input or simply drop it
+                    # (zip_longest swaps it for its fill iterator) - both are fine, so "closed" is not known now
+                    model["closed"] = None
                 got = ("tool", tuple(got_items), got_end)
                 exp = ("tool", tuple(exp_items), exp_end)
             elif kind == 9:
@@ -295,13 +325,17 @@ def execute(st, ctx):
                     exp = ("value", ident(agg.r(spec, [ModelIter(model, items)], rfns)))
                 except (ValueError, TypeError) as err:
                     exp = ("error", type(err).__name__)
+                if got[0] == "error" and exp[0] == "error":
+                    # how far a *failing* aggregation got may differ legitimately (the stdlib's sorted gathers all
+                    # items before calling the key, asyncstdlib calls it item by item): take the actual position
+                    model["cursor"] = sum(1 for e in sim.log if e[0] == "item" and e[1] == src.name)
                 # an aggregation releases (closes) its source before it returns
                 model["open"] = False
                 model["closed"] = True
                 out.probes["closed_by_tool"] = 1
             elif kind == 8:
                 # athrow through a *closed* handle must not reach the underlying iterator
-                if not model["closed"] or model["exhausted"] or not hasattr(b, "athrow"):
+                if model["closed"] is not True or model["exhausted"] or not hasattr(b, "athrow"):
                     got = exp = ("skipped",)
                 else:
                     out.probes["athrow_on_closed_handle"] = 1
@@ -313,6 +347,34 @@ def execute(st, ctx):
                             raise
                     got = ("athrow", src.n_pulls - n_before, sum(1 for e in sim.log if e[0] == "athrow"))
                     exp = ("athrow", 0, 0)
+            elif kind == 10:
+                # a borrowed handle can be borrowed again: the new handle sees what the old one would
+                b = L.borrow(b)
+                got = exp = ("borrowed_handle",)
+            elif kind in (11, 12):
+                if not transient_ok:
+                    got = exp = ("skipped",)
+                else:
+                    out.probes["transient_error"] = 1
+                    fault = InjectedFault("transient")
+                    world.set_fault(src.name, src.n_pulls, fault)
+                    through = kind == 11
+                    reaches = (not through) or model["open"]
+                    try:
+                        await (b if through else underlying).__anext__()
+                        got = ("no_error",)
+                    except StopAsyncIteration:
+                        got = ("stop",)
+                    except InjectedFault as err:
+                        got = ("fault", err is fault)
+                    world.set_fault(None, -1, None)
+                    if reaches:
+                        exp = ("fault", True)
+                        if through:
+                            # the forwarding generator is finished by the error; the handle itself was not closed
+                            model["open"] = False
+                    else:
+                        exp = ("stop",)
             elif kind == 6:
                 b = L.borrow(underlying)
                 model["open"] = True
